@@ -1,6 +1,7 @@
 import ArcSwapModel.M.Driver
 import ArcSwapModel.KindsDriver
 import ArcSwapModel.AutoTraits
+import ArcSwapModel.SerdeM
 open M
 
 /-- `driver <exec-file>`: replays every execution of the file on `M`. -/
@@ -33,6 +34,11 @@ partial def readExecs (lines : Array String) : Array Exec := Id.run do
 
 def main (args : List String) : IO UInt32 := do
   match args with
+  | ["serde", path] =>
+    let text ← IO.FS.readFile path
+    for l in text.splitOn "\n" do
+      if l.startsWith "case " then IO.println (SerdeM.caseLine l)
+    return 0
   | ["autotraits"] =>
     for l in AutoTraits.tableLines do IO.println l
     return 0
